@@ -485,6 +485,10 @@ pub(crate) fn block(kind: BlockKind, key: usize) {
         t.state = TaskState::Blocked(kind, key);
         t.blocked_bt = bt;
         t.blocks += 1;
+        // operations that can block indefinitely (used by "never blocks" oracles); mutexes are held briefly
+        if matches!(kind, BlockKind::Condvar | BlockKind::Park | BlockKind::Recv | BlockKind::Join) {
+            t.blocking_calls += 1;
+        }
     });
     switch_out();
     with_exec(|e| {
@@ -494,12 +498,7 @@ pub(crate) fn block(kind: BlockKind, key: usize) {
 }
 
 pub(crate) fn count_blocking_call() {
-    if in_task() {
-        with_exec(|e| {
-            let cur = e.current;
-            e.tasks[cur].blocking_calls += 1;
-        });
-    }
+    // counted in `block` (only when the task really blocks)
 }
 
 /// Makes every task blocked on (kind, key) runnable. Returns how many.
